@@ -102,6 +102,7 @@ struct World {
     std::function<void(uint8_t)> onHbConsEvent;         // application code inside the CONmtHbConsEvent callback
     std::function<void(const Frame &)> onPdoTransmit;   // application code inside the COPdoTransmit callback (may call the stack's API)
     std::function<void(int)> onModeChange;              // ... inside CONmtModeChange(mode)
+    std::function<void(int)> onResetRequest;            // ... inside CONmtResetRequest(type)
     std::function<void(uint8_t, int)> onHbConsChange;   // ... inside CONmtHbConsChange(node, state)
     std::function<void(const Frame &)> onPdoReceive;    // ... inside COPdoReceive (before the return value is given)
     std::function<void(int)> onSyncUpdate;              // ... inside COPdoSyncUpdate(rpdo number)
